@@ -11,6 +11,7 @@ THEOREMS = [_T + n for n in [
     "limits_enforced_header", "multipart_roundtrip", "multipart_roundtrip_refuted", "multipart_disposition_recovered",
     "multipart_trailing_backslash_fixed", "multipart_trailing_backslash_recovered", "limits_exact",
     "multipart_disposition2231_recovered", "multipart_roundtrip_2231", "limits_exact_2231",
+    "multipart_inner_exceptions", "multipart_inner_unicode_error", "part_headers_never_keyerror", "parse_body_outcomes",
 ]]
 TRUSTED = [
     "bytes.find/rfind/split, str.split/strip/partition/startswith, UTF-8 decoding, urllib.parse.parse_qs(l)/unquote (latin-1), "
@@ -30,10 +31,14 @@ ASSUMPTIONS = [
 ]
 RULE = ("forms of 0-6 fields/files (binary contents, empty values, repeated names, quoted/escaped/non-ASCII names; control-character names "
         "and filenames in the RFC 2231 form) encoded as multipart (quoted-string or RFC 2231 parameters) or urlencoded; every single-byte mutation of small bodies; arbitrary bodies and content "
-        "types; limits at count-1/count/count+1; non-trivial = a form with >=1 part parsed successfully, or a mutated body")
+        "types; limits at count-1/count/count+1; every non-urlencoded case is also run through parse_multipart_form_data directly (result and "
+        "exception type compared with the model's parseMultipart); non-trivial = a form with >=1 part parsed successfully, or a mutated body")
 EXHAUSTIVE = {"quick": False, "thorough": False}
 CLAUSE_CAVEATS = [
-    "only_input_error holds by construction of the model's catch-all; the clause is carried by the tie's 'no other exception type' oracle",
+    "only_input_error itself restates the `except Exception` of parse_body_arguments (modelled as `collapse`); its content is "
+    "multipart_inner_exceptions (outside the catch-all only UnicodeDecodeError can occur), tied at the parse_multipart_form_data entry. "
+    "Still open: where the model answers Unmodelled (an RFC 2231 charset other than utf-8/us-ascii/latin-1 in a part: parse_body_outcomes) "
+    "the clause rests on the oracle ('no Uncaught:' on the real result) alone",
 ]
 CLAUSES = {
     "multipart with a boundary occurring nowhere in the content is recovered exactly": "multipart_roundtrip (side condition: boundary without LF — "
@@ -43,7 +48,10 @@ CLAUSES = {
         "RFC 2231 parameters (name*=utf-8''pct): multipart_roundtrip_2231 (names/filenames ANY non-empty scalar-valued text, control "
         "characters included; same side condition), multipart_disposition2231_recovered (_parse_header level)",
     "urlencoded forms are recovered exactly": "urlencoded_roundtrip, urlencoded_roundtrip_entry",
-    "any other body succeeds or raises HTTPInputError, never another exception": "only_input_error",
+    "any other body succeeds or raises HTTPInputError, never another exception": "only_input_error, parse_body_outcomes (entry: result / "
+        "HTTPInputError / model gives up); multipart_inner_exceptions + multipart_inner_unicode_error + part_headers_never_keyerror (what the "
+        "catch-all has to catch: at the parse_multipart_form_data entry the only other exception type is UnicodeDecodeError, and it occurs); "
+        "the exception TYPE at that inner entry is compared with the real code on every multipart/raw case",
     "part-count and part-header-size limits are enforced": "limits_enforced_parts, limits_enforced_parts_reject, limits_enforced_header, "
         "limits_exact, limits_exact_2231 (encoded forms, both parameter styles: = accepted, > refused with HTTPInputError, both limits)",
 }
@@ -253,6 +261,26 @@ def _cfgof(case):
     return case.get("cfg") or {"enabled": True, "max_parts": 100, "max_hdr": 10240}
 
 
+def _inner_boundary(case):
+    """the boundary handed to parse_multipart_form_data in the direct (inner entry) call: the form's own boundary, or the first
+    non-empty boundary= parameter of the content type (as parse_body_arguments extracts it), else b"b" (the RAW_BODY boundary)"""
+    if case["kind"] == "form":
+        return case["boundary"].encode("utf-8")
+    for field in case["ct"].split(";"):
+        k, _sep, v = field.strip().partition("=")
+        if k == "boundary" and v:
+            try:
+                return v.encode("utf-8")
+            except UnicodeEncodeError:
+                break
+    return b"b"
+
+
+def _result(args, files):
+    return [[[k, [v.hex() for v in vs]] for k, vs in args.items()],
+            [[k, [[f.filename, f.body.hex(), f.content_type] for f in fs]] for k, fs in files.items()]]
+
+
 def run_impl(case):
     from tornado import httputil
     body, ct = _body_ct(case)
@@ -263,15 +291,25 @@ def run_impl(case):
     args, files = {}, {}
     try:
         httputil.parse_body_arguments(ct, body, args, files, headers, config=cfg)
-        r = [[[k, [v.hex() for v in vs]] for k, vs in args.items()],
-             [[k, [[f.filename, f.body.hex(), f.content_type] for f in fs]] for k, fs in files.items()]]
+        r = _result(args, files)
     except Exception as e:
         r = _exc(e)
-    return {"r": r, "body": body.hex()}
+    out = {"r": r, "body": body.hex()}
+    if case["kind"] != "urlenc":
+        # the inner entry, outside the catch-all of parse_body_arguments: here the exception TYPE is observable
+        # (HTTPInputError vs UnicodeDecodeError …) and is compared with the model's parseMultipart
+        args, files = {}, {}
+        try:
+            httputil.parse_multipart_form_data(_inner_boundary(case), body, args, files, config=cfg.multipart)
+            out["mp"] = _result(args, files)
+        except Exception as e:
+            out["mp"] = _exc(e)
+    return out
 
 
 # ----------------------------------------------------------------------------------------------- model / spec
 _SKIP = set()
+_SKIP_MP = set()
 
 
 def _key(case):
@@ -290,6 +328,8 @@ def model_requests(case, impl):
         out.append(line(ID, "encode", atom(case["form"]), case["boundary"].encode("utf-8"), _wire_parts(case)))
     if case["kind"] == "urlenc":
         out.append(line(ID, "formenc", [[n, bytes.fromhex(v)] for n, v in case["fields"]]))
+    else:
+        out.append(line(ID, "multipart", c["enabled"], c["max_parts"], c["max_hdr"], _inner_boundary(case), body))
     return out
 
 
@@ -316,6 +356,10 @@ def model_result(case, replies):
     out = {"r": r}
     if case["kind"] in ("form", "urlenc"):
         out["body"] = _py(replies[1])[0]
+    if case["kind"] != "urlenc":
+        out["mp"] = _py(replies[-1])[0]
+        if out["mp"] == "Unmodelled":
+            _SKIP_MP.add(_key(case))
     return out
 
 
@@ -323,6 +367,8 @@ def impl_view(case, impl):
     out = {"r": "Unmodelled" if _key(case) in _SKIP else impl["r"]}
     if case["kind"] in ("form", "urlenc"):
         out["body"] = impl["body"]
+    if case["kind"] != "urlenc":
+        out["mp"] = "Unmodelled" if _key(case) in _SKIP_MP else impl["mp"]
     return out
 
 
@@ -413,6 +459,8 @@ def stats(case, impl):
             out.append("r-form:control-character-name" + ("/recovered" if isinstance(r, list) else ""))
     if _key(case) in _SKIP:
         out.append("unmodelled")
+    if "mp" in impl:
+        out.append("inner:" + (impl["mp"] if isinstance(impl["mp"], str) else "ok"))
     return out
 
 
